@@ -59,6 +59,19 @@ chk("C04",
     "machine-checked proof in Coq (real analysis: exp/ln identities, permutation sums) + translator/verified-enclosure correspondence",
     "DESIGN.md section 6, C04")
 
+chk("C05",
+    "Coq theorems over Q for ARBITRARY oracles ESS(beta), V(beta) (no monotonicity assumed): upper-limit search "
+    "returns b in [beta0,1] with ESS(b) >= target unless it stays; 14 halvings suffice (fuel); ESS-mode step is "
+    "monotone, bounded by 1, advances only to a temperature meeting the ESS target, never enters the bisection branch, "
+    "and records beta/weights/ESS/evidence at one temperature; dynamic-mode step stays within [beta_prev, ESS-limited "
+    "beta]; whole runs (any number of iterations, per-iteration oracles) are non-decreasing in [0,1]. Tie: regenerated "
+    "Gen.Schedule tests/expressions + Link; bit-exact binary64 replay of Reweighter.run with the recorded oracle table "
+    "on real pools and on arbitrary synthetic oracles.",
+    "Trusted: Coq kernel/vm_compute; python translator/harness; _compute_metric_and_weights treated as a deterministic "
+    "oracle (its body: C04, C20); Q theorems idealise rounding of the midpoint (monitored by the bit-exact replay).",
+    "machine-checked proof in Coq (loop invariants by induction on fuel, arbitrary oracles) + translator/bit-exact correspondence",
+    "DESIGN.md section 6, C05")
+
 for pid in [f"C{i:02d}" for i in range(1, 21)]:
     if pid not in CHECKS:
         NA[pid] = "check not built yet in this session (planned in DESIGN.md section 6); not claimed"
